@@ -15,7 +15,7 @@ LEVEL = "model_checking"
 
 def run(ctx):
     ctx.build(["c12"])
-    paths, rs = xcommon.explore(ctx, "c12", "X_C12", 150, 4000, lifted=True)
+    paths, rs = xcommon.explore(ctx, "c12", "X_C12", 300, 4000, lifted=True)
     ent = {"rd": 0, "ud": 0, "du": 0}
     outc = {}
     for p in paths:
